@@ -188,6 +188,10 @@ func init() {
 					if call, ok := ast.Unparen(def).(*ast.CallExpr); ok && r.P.CalleeFunc(info, call) == clSave {
 						uriOK = true
 					}
+					// through an extracted helper that returns (uri, err)
+					if oc, idx := valueOrigin(info, e, 0); oc != nil && idx == 0 && r.P.CalleeFunc(info, oc) == clSave {
+						uriOK = true
+					}
 				}
 				if !uriOK {
 					r.Fail(name+":handle-uri", ret.Pos(), nil, "the handle's URI is not the URI returned by checkpoints.Save")
@@ -299,6 +303,10 @@ func init() {
 							for _, st := range is.Body.List {
 								if as, ok := st.(*ast.AssignStmt); ok && len(as.Lhs) == 1 {
 									idxVar = prog.IdentObj(info, as.Lhs[0])
+									// the suffix taken right here: w.sealedBuffers = w.sealedBuffers[i:]; return
+									if prog.SelField(info, as.Lhs[0]) == sealed && x.Key != nil {
+										idxVar = prog.IdentObj(info, x.Key)
+									}
 								}
 							}
 						}
@@ -338,6 +346,9 @@ func init() {
 				hasBreak := false
 				inspect(loop.Body, func(m ast.Node) bool {
 					if b, ok := m.(*ast.BranchStmt); ok && b.Tok == token.BREAK {
+						hasBreak = true
+					}
+					if _, ok := m.(*ast.ReturnStmt); ok {
 						hasBreak = true
 					}
 					return true
